@@ -7,6 +7,7 @@ import KikiVerif.Driver.Sexp
 import KikiVerif.Model.Driver
 import KikiVerif.Model.Hash
 import KikiVerif.Model.Oset
+import KikiVerif.Spec.Lex
 
 open KikiVerif
 
@@ -20,6 +21,15 @@ def doTokenize (line : String) : String :=
   | none => "(bad-request)"
   | some src =>
     match Tokenize.tokenize src with
+    | .ok ts => Sexp.tokens ts
+    | .err e => Sexp.kerr e
+    | .panic s => s!"(panic {Sexp.hex s.toList})"
+
+def doScan (line : String) : String :=
+  match Sexp.unhex ((words line).headD "") with
+  | none => "(bad-request)"
+  | some src =>
+    match Spec.scan src with
     | .ok ts => Sexp.tokens ts
     | .err e => Sexp.kerr e
     | .panic s => s!"(panic {Sexp.hex s.toList})"
@@ -159,6 +169,7 @@ def main (args : List String) : IO UInt32 := do
   let stdout ← IO.getStdout
   let f ← match args with
     | ["tokenize"] => pure doTokenize
+    | ["scan"] => pure doScan
     | ["stages"] => pure doStages
     | ["generate"] => pure doGenerate
     | ["hash"] => pure doHash
